@@ -132,7 +132,7 @@ def r05_7_defaults(ctx, rid='R05.7'):
     P = ctx.P
     r = ctx.rule(rid, 'default stripping agrees with loading: defaulted_attributes computes "optional" like class_subobjects and '
                       'applies a _yatiml_defaults override whenever the name is present in it', floor=3)
-    a = fn(P, 'yatiml.introspection:class_subobjects')
+    a = S._subobjects_fn(P)
     b = fn(P, 'yatiml.introspection:defaulted_attributes')
     # class_subobjects: `required` = <index of the parameter> < FO
     fa = None
